@@ -2,10 +2,11 @@
    Only statements; every proof is [exact <lemma>] from Proofs/MonteCarloProofs.v.
    A raw draw is a pair (stream, position); a schedule is the list of worker ids that take tasks 0,1,2,...
    (any number of workers, any assignment). *)
-From Coq Require Import List Arith Bool QArith Qminmax.
-From Verif Require Import Model.MonteCarlo Proofs.MonteCarloProofs.
+From Coq Require Import List Arith Bool QArith Qminmax String Ascii.
+From Verif Require Import Model.MonteCarlo Proofs.MonteCarloProofs Model.MCRows Model.MCSettings Proofs.MCSettingsProofs.
 Import ListNotations.
 Open Scope nat_scope.
+Local Notation length := List.length (only parsing).   (* String.length is imported too *)
 
 (* np.random.seed() at the start of every work package (the code as it is now): with pairwise distinct
    task seeds no raw draw is consumed twice - for every number of draws per task, parent state, schedule. *)
@@ -64,6 +65,11 @@ Theorem C13_support_binomial : forall p us, binomial_t p us <= length us.
 Proof. exact binomial_support. Qed.
 Print Assumptions C13_support_binomial.
 
+Theorem C13_support_lognormal :
+  forall expf : Q -> Q, (forall z, 0 < expf z)%Q -> forall mu sigma z : Q, (0 < lognormal_t expf (mu + sigma * z))%Q.
+Proof. exact (fun expf H mu sigma z => lognormal_support expf H (mu + sigma * z)%Q). Qed.
+Print Assumptions C13_support_lognormal.
+
 (* the boolean test evaluated on the rows of real runs means what it should *)
 Theorem C13_support_checker_sound :
   forall a b c x,
@@ -119,6 +125,61 @@ Theorem C13_row_count_pinned_partial :
 Proof. exact (mutex_no_loss false). Qed.
 Print Assumptions C13_row_count_pinned_partial.
 
+(* ---- the settings file (main) and the '#' feature (check_and_replace_mean), string level *)
+
+(* every INPUT line contributes its fields, every OUTPUT line its label, in file order, whatever else the file holds *)
+Theorem C13_settings_lines_in_order :
+  forall lines s, read_settings lines = Some s ->
+  s_inputs s = map input_fields (filter is_input_line lines) /\
+  s_outputs s = map output_field (filter is_output_line lines).
+Proof. exact read_settings_order. Qed.
+Print Assumptions C13_settings_lines_in_order.
+
+(* a line without a comma - a blank line - is an IndexError of the reader, wherever it stands *)
+Theorem C13_settings_blank_line_is_error :
+  forall pre post, read_settings (pre ++ String (ascii_of_nat 10) "" :: post) = None.
+Proof. exact read_settings_blank_line. Qed.
+Print Assumptions C13_settings_blank_line_is_error.
+
+(* a distribution word fires at most one distribution; when every INPUT line names one of the five, a work package makes
+   exactly one numpy call per INPUT line, in file order, with the line's numeric fields in order *)
+Theorem C13_one_entry_per_input :
+  (forall w, List.length (dispatch w) <= 1) /\
+  (forall inputs, forallb recognised inputs = true -> expected_calls inputs = map the_call inputs).
+Proof. exact (conj dispatch_at_most_one expected_calls_in_order). Qed.
+Print Assumptions C13_one_entry_per_input.
+
+(* '#': the first field that contains '#' is replaced by the raw second comma field of the FIRST line of the base file
+   that starts with the parameter name *)
+Theorem C13_mean_first_occurrence :
+  forall fields pre l post i x v rest,
+  first_hash fields 0 = Some i ->
+  forallb (fun y => negb (prefix (hd "" fields) y)) pre = true -> prefix (hd "" fields) l = true ->
+  split_char "," l = x :: v :: rest ->
+  replace_mean fields (pre ++ l :: post) = Some (set_nth i v fields).
+Proof. exact replace_mean_first_occurrence. Qed.
+Print Assumptions C13_mean_first_occurrence.
+
+(* that is the line the simulator takes the parameter from (last line whose name field is the name: C12) when no earlier
+   line starts with the name and no later line defines the parameter ... *)
+Theorem C13_mean_is_simulated_value_partial :
+  forall name pre l post,
+  forallb (fun y => negb (prefix name y)) pre = true -> forallb (fun y => negb (names_param name y)) post = true ->
+  prefix name l = true -> names_param name l = true ->
+  mean_source_line name (pre ++ l :: post) = Some l /\ simulated_line name (pre ++ l :: post) = Some l.
+Proof. exact mean_source_is_simulated_line. Qed.
+Print Assumptions C13_mean_is_simulated_value_partial.
+
+(* ... and refuted otherwise: a parameter given twice, and a longer parameter name with the same beginning earlier in the
+   file ('Reservoir Volume Option' before 'Reservoir Volume': the layout of the shipped examples) *)
+Theorem C13_mean_is_simulated_value_refuted :
+  (exists fields base i v, first_hash fields 0 = Some i /\ replace_mean fields base = Some (set_nth i v fields) /\
+     simulated_value (hd "" fields) base = Some "160" /\ v = " 150" ++ NL1) /\
+  (exists fields base i v, first_hash fields 0 = Some i /\ replace_mean fields base = Some (set_nth i v fields) /\
+     simulated_value (hd "" fields) base = Some "1e9" /\ v = "4").
+Proof. exact mean_not_simulated_value. Qed.
+Print Assumptions C13_mean_is_simulated_value_refuted.
+
 (* non-vacuity *)
 Example C13_example_fresh :   (* 3 workers, 5 tasks, 2 draws each, injective seeds: ten different raw draws *)
   (forall i j : nat, 100 + i = 100 + j -> i = j) /\
@@ -151,3 +212,14 @@ Proof. split; [repeat constructor; discriminate | reflexivity]. Qed.
 Example C13_example_triangular_hyps :   (* the hypotheses on sqrt are satisfiable on the points used: identity on {0,1} *)
   (triangular_t (fun x => x) 0 1 1 1 == 1)%Q.
 Proof. vm_compute. reflexivity. Qed.
+
+
+Example C13_example_settings :
+  let lines := ["INPUT, Reservoir Temperature, normal, #, 5" ++ NL1; "OUTPUT, Stored Heat (rock)" ++ NL1;
+                "INPUT, Reservoir Area,uniform, 50, 120" ++ NL1; "ITERATIONS, 12" ++ NL1] in
+  settings_agree lines [["Reservoir Temperature"; " normal"; " #"; " 5"]; ["Reservoir Area"; "uniform"; " 50"; " 120"]]
+                 ["Stored Heat (rock)"] (Some "12") None = true
+  /\ replace_mean ["Reservoir Temperature"; " normal"; " #"; " 5"] ["Reservoir Temperature, 250.0" ++ NL1; "Reservoir Area, 55.0" ++ NL1]
+     = Some ["Reservoir Temperature"; " normal"; " 250.0" ++ NL1; " 5"]
+  /\ forallb recognised [(" normal", [150; 5]%Q); ("uniform", [50; 120]%Q)] = true.
+Proof. repeat split; vm_compute; reflexivity. Qed.
